@@ -157,14 +157,15 @@ func (e c27ev) String() string {
 
 func c27events() []c27ev {
 	var evs []c27ev
-	for _, f := range []string{"a/+", "a/#", "+/b", "xy", "predef:1"} {
+	// "+/" is a two-character filter: the client subscribes to it as a short topic although it has two levels
+	for _, f := range []string{"a/+", "a/#", "+/b", "xy", "predef:1", "+/"} {
 		evs = append(evs, c27ev{Kind: "sub", Arg: f}, c27ev{Kind: "unsub", Arg: f})
 	}
 	// the application subscribes to a filter it already holds (a renewed subscription): one Unsubscribe ends both
 	for _, f := range []string{"a/+", "xy"} {
 		evs = append(evs, c27ev{Kind: "sub", Arg: f, QoS: 2})
 	}
-	for _, t := range []string{"a", "a/b", "c/b", "a/b/c", "xy", "p/1"} {
+	for _, t := range []string{"a", "a/b", "c/b", "a/b/c", "xy", "p/1", "a/"} {
 		for _, q := range []uint8{0, 1, 2} {
 			evs = append(evs, c27ev{Kind: "pub", Arg: t, QoS: q})
 		}
@@ -440,7 +441,7 @@ func TestC27(t *testing.T) {
 		"histories":                     hist,
 		"exhaustive":                    true,
 		"samples":                       []string{"match(\"a/#\", \"a\")", "match(\"+/b\", \"/b\")", "sub(a/+);sub(a/#);unsub(a/+);deliver(a/b,q2)"},
-		"rule":                          fmt.Sprintf("E3: every valid filter x every name of <=3 levels over {a,b,empty level} with + anywhere and # last (%d pairs) through the real match and through the handler table's store/handle/delete, against refmatch (MQTT 3.1.1 4.7); E1: every history of length %d over subscribe/unsubscribe of {a/+, a/#, +/b, short xy, predefined 1} (also subscribing twice to a/+ and xy) and deliveries on {a, a/b, c/b, a/b/c, xy, p/1} at QoS 0/1/2 (QoS 2 delivered on PUBREL; also a QoS 2 PUBLISH and its PUBREL as separate events, so that subscriptions can change in between) that ends with a delivery, on the real client with a scripted gateway; states = distinct delivery logs", n, depth),
+		"rule":                          fmt.Sprintf("E3: every valid filter x every name of <=3 levels over {a,b,empty level} with + anywhere and # last (%d pairs) through the real match and through the handler table's store/handle/delete, against refmatch (MQTT 3.1.1 4.7); E1: every history of length %d over subscribe/unsubscribe of {a/+, a/#, +/b, short xy, predefined 1, the two-character two-level filter +/} (also subscribing twice to a/+ and xy) and deliveries on {a, a/b, c/b, a/b/c, xy, p/1, a/} at QoS 0/1/2 (QoS 2 delivered on PUBREL; also a QoS 2 PUBLISH and its PUBREL as separate events, so that subscriptions can change in between) that ends with a delivery, on the real client with a scripted gateway; states = distinct delivery logs", n, depth),
 	}
 	rep.Assumptions = []string{"default schedule", "'$'-topics are outside the alphabet", "when several current filters match, exactly one callback is demanded (which one is not specified)"}
 	rep.Finish()
